@@ -380,6 +380,14 @@ def dict_method(I, ctx, fr, dv, h, name, args, kwargs, node):
     raise Unsupported('dict.%s' % name, node)
 
 
+class VPairs(V):
+    """A list of (key, value) pairs with distinct keys, order abstracted."""
+    kind = 'pairs'
+
+    def __init__(self, dom, arr, kt, vt):
+        self.dom, self.arr, self.kt, self.vt = dom, arr, kt, vt
+
+
 class VItems(V):
     """items() view of a symbolic dict."""
     kind = 'items'
@@ -530,7 +538,7 @@ def _b_list(I, ctx, fr, args, kwargs, node):
     if not args:
         return ctx.alloc(HList(items=[]))
     a = I.resolve(ctx, args[0])
-    if isinstance(a, VZip):
+    if isinstance(a, (VZip, VUnzipped)):
         return a
     items, q = seq_of_iterable(I, ctx, a, node)
     if fr.spec:
@@ -553,7 +561,13 @@ def _b_dict(I, ctx, fr, args, kwargs, node):
     from . import models as M
     if not args:
         return ctx.alloc(HDict(conc=dict(kwargs)))
-    return M.dict_copy_with(I, ctx, args[0], kwargs)
+    a0 = I.resolve(ctx, args[0])
+    if isinstance(a0, VPairs):
+        d = ctx.alloc(HDict(dom=a0.dom, arr=a0.arr, kt=a0.kt, vt=a0.vt))
+        for k, x in kwargs.items():
+            M.dict_set(I, ctx, d, VStr(k), x, node)
+        return d
+    return M.dict_copy_with(I, ctx, a0, kwargs)
 
 
 def _b_str(I, ctx, fr, args, kwargs, node):
@@ -667,6 +681,8 @@ def _b_zip(I, ctx, fr, args, kwargs, node):
     from . import models as M
     if not args:
         return M.VIter(items=[])
+    if len(args) == 1 and isinstance(args[0], VUnzipped):
+        return args[0]
     cols = []
     conc = True
     for a in args:
@@ -691,6 +707,15 @@ def _b_zip(I, ctx, fr, args, kwargs, node):
             raise Unsupported('zip over %r' % (c,), node)
         seqs.append(VSeq(q[0], q[1]))
     return M.VIter(sym=VZipLazy(seqs))
+
+
+class VUnzipped(V):
+    """zip(*rows) for a symbolic sequence of k-tuples: k columns when rows is
+    non-empty, nothing otherwise."""
+    kind = 'unzipped'
+
+    def __init__(self, cols):
+        self.cols = cols
 
 
 class VZipLazy(V):
